@@ -100,7 +100,7 @@ def collect(chk):
         jds = stub.random_jds(rng, cname, n, rng.choice([1, 2, 3, 4]), zero_frac=rng.choice([0.0, 0.3, 0.6]))
         gens = ["motifs"] if cfg["custom"] else ["fast", "network"]
         traces.append(_strip(stub.execute({"gen": rng.choice(gens), "via": rng.choice(["direct", "main"]), "cfg": cname,
-                                           "jds": jds, "rng": ("seed", rng.randrange(1 << 30)), "style": rng.randrange(4),
+                                           "jds": jds, "rng": ("seed", rng.randrange(1 << 30)), "style": rng.randrange(4), "bare_alias": i % 2 == 0,
                                            "dict_reuse": i % 3 == 0, "same_names": i % 4 == 1})))   # parameter dictionary re-used; shared labels
     # random motif configurations (any number of motifs / orbits / shapes, motif order independent of column order)
     for i in range(4000 if thorough else 600):
@@ -111,7 +111,7 @@ def collect(chk):
         g = rng.choice(gens)
         traces.append(_strip(stub.execute({"gen": g, "via": rng.choice(["direct", "main"]), "cfg": cfg, "jds": jds,
                                            "rng": ("seed", rng.randrange(1 << 30)), "as_custom": g == "motifs" and not custom,
-                                           "style": rng.randrange(4), "name_style": rng.randrange(3), "dict_reuse": i % 4 == 1, "same_names": i % 5 == 2,
+                                           "style": rng.randrange(4), "name_style": rng.randrange(3), "dict_reuse": i % 4 == 1, "same_names": i % 5 == 2, "bare_alias": i % 3 == 0,
                                            "simple_builder": g != "motifs" and rng.random() < 0.5})))    # (per-edge naming callbacks need a fixed edge count)
     # motifs with very many members (orbit sizes 49, 98, 107: counts derived through float reciprocals go wrong from 49 on)
     for size in (49, 98, 107):
